@@ -78,6 +78,10 @@ def binop(ip, op, a, b):
     if isinstance(a, tuple) or isinstance(b, tuple):
         if op is ast.Add and isinstance(a, tuple) and isinstance(b, tuple):
             return a + b
+        if op is ast.Add and isinstance(a, SV) and a.kind[0] == 'seq':
+            return SV(simp(z3.Concat(a.e, lift(b, a.kind).e)) if len(b) else a.e, a.kind)
+        if op is ast.Add and isinstance(b, SV) and b.kind[0] == 'seq':
+            return SV(simp(z3.Concat(lift(a, b.kind).e, b.e)) if len(a) else b.e, b.kind)
         if op is ast.Mult and isinstance(a, tuple) and isinstance(b, int):
             return a * b
         if op is ast.Mod and isinstance(a, str):
